@@ -84,7 +84,7 @@ def run(ctx):
             ctx.case((it, name), nontrivial=len(set(round(x, 9) for x in base)) > 1, sample=dict(rcase, scores=got), rendering=name, method=method, accepted=True)
             if len(got) != len(base) or any(abs(a - b) > 1e-9 for a, b in zip(got, base)):
                 ctx.mismatch("scores depend on the representation (%s)" % name, rcase, impl=got, spec=base)
-        if ctx.elapsed() > (100 if q else 900):
+        if ctx.elapsed() > (400 if q else 1800):
             break
     ctx.extra["acceptance"] = {"%s/%s" % k: v for k, v in sorted(accepted.items())}
     return ctx.finish("other", "Partial by nature. Proved for the model: the scoring model consumes only the encoded class indices and the feature/distance matrix, and "
